@@ -353,6 +353,8 @@ class Locale:
             date = datetime.datetime.fromtimestamp(date, datetime.timezone.utc)
         if date.tzinfo is None:
             date = date.replace(tzinfo=datetime.timezone.utc)
+        else:
+            date = date.astimezone(datetime.timezone.utc)
         now = datetime.datetime.now(datetime.timezone.utc)
         if date > now:
             if relative and (date - now).total_seconds() < 60:
